@@ -377,6 +377,56 @@ theorem statement_filterMap (o : Oracles) (cfg : Cfg) (m : Str → Option (List 
     parseFile o cfg (iterRows m (.csv d) true (writeCsv d (hdr :: rows))) = .ok (rows.filterMap (rowTxn o cfg)) := by
   rw [(iterRows_written m d hd1 hd2 hdr rows).1]; exact parseFile_filterMap o cfg rows h
 
+/-! ## the `delimiter:` setting
+
+What the source settings say is a TEXT (`delimiter:` in settings.yaml, handed on unchanged by `resolve_source_format`);
+`delimOf` is what `_iter_rows_with_delimiter` makes of it.  The clauses "all delimiters (comma, single char, tab, regex)": -/
+
+/-- A setting of exactly one character IS that character, whatever the character is - a letter, `;`, `|`, and equally a
+character that is itself white space (a real tab, a blank, U+001F …): nothing is trimmed, nothing is looked up. -/
+theorem delimiter_setting_single (c : Char) : delimOf (some [c]) = .csv c := by
+  have h1 : ([c] = "tab".toList) = False := by simp
+  have h2 : "regex:".toList.isPrefixOf [c] = false := by
+    show ['r', 'e', 'g', 'e', 'x', ':'].isPrefixOf [c] = false
+    simp [List.isPrefixOf]
+  simp only [delimOf, h1, if_false, h2, Bool.false_eq_true]
+
+/-- no setting = comma; the word `tab` = the tab character; `regex:…` = the line-pattern reader, whatever follows the colon -/
+theorem delimiter_setting_words (p : Str) :
+    delimOf none = .csv ',' ∧ delimOf (some "tab".toList) = .csv '\t' ∧ delimOf (some ("regex:".toList ++ p)) = .regex := by
+  refine ⟨rfl, by decide, ?_⟩
+  have h1 : ("regex:".toList ++ p = "tab".toList) = False := by
+    show (['r', 'e', 'g', 'e', 'x', ':'] ++ p = ['t', 'a', 'b']) = False
+    simp
+  have h2 : "regex:".toList.isPrefixOf ("regex:".toList ++ p) = true := by
+    show ['r', 'e', 'g', 'e', 'x', ':'].isPrefixOf (['r', 'e', 'g', 'e', 'x', ':'] ++ p) = true
+    simp [List.isPrefixOf]
+  simp only [delimOf, h1, if_false, h2, if_true]
+
+/-- From the settings to the transactions: a statement written with the one-character delimiter `c` (any character except
+the quote and the line feed - a tab or a blank included) and declared with `delimiter: c` is read back row for row:
+the transactions are exactly those of the accepted rows of the table, one each, in order. -/
+theorem statement_filterMap_setting (o : Oracles) (cfg : Cfg) (m : Str → Option (List Str)) (c : Char) (hc1 : c ≠ '\x22') (hc2 : c ≠ '\n')
+    (hdr : List Str) (rows : List (List Str)) (h : NoFatal o cfg rows) :
+    parseFile o cfg (iterRows m (delimOf (some [c])) true (writeCsv c (hdr :: rows))) = .ok (rows.filterMap (rowTxn o cfg)) ∧
+    parseFile o cfg (iterRows m (delimOf (some [c])) false (writeCsv c rows)) = .ok (rows.filterMap (rowTxn o cfg)) := by
+  rw [delimiter_setting_single c, (iterRows_written m c hc1 hc2 hdr rows).1, (iterRows_written m c hc1 hc2 hdr rows).2]
+  exact ⟨parseFile_filterMap o cfg rows h, parseFile_filterMap o cfg rows h⟩
+
+/-- the same for `delimiter: tab` and for no `delimiter:` at all -/
+theorem statement_filterMap_tab_and_default (o : Oracles) (cfg : Cfg) (m : Str → Option (List Str))
+    (hdr : List Str) (rows : List (List Str)) (h : NoFatal o cfg rows) :
+    parseFile o cfg (iterRows m (delimOf (some "tab".toList)) true (writeCsv '\t' (hdr :: rows))) = .ok (rows.filterMap (rowTxn o cfg)) ∧
+    parseFile o cfg (iterRows m (delimOf none) true (writeCsv ',' (hdr :: rows))) = .ok (rows.filterMap (rowTxn o cfg)) := by
+  rw [(delimiter_setting_words []).1, (delimiter_setting_words []).2.1,
+    (iterRows_written m '\t' (by decide) (by decide) hdr rows).1, (iterRows_written m ',' (by decide) (by decide) hdr rows).1]
+  exact ⟨parseFile_filterMap o cfg rows h, parseFile_filterMap o cfg rows h⟩
+
+/-- a white-space delimiter setting is not the default: a blank-separated line is three cells under `delimiter: " "`
+and one cell under the default (what reading the setting through a trimming step would make of it) -/
+example : iterRows (fun _ => none) (delimOf (some [' '])) false "a b c\n".toList = [["a".toList, "b".toList, "c".toList]] ∧
+    iterRows (fun _ => none) (delimOf none) false "a b c\n".toList = [["a b c".toList]] := by decide +kernel
+
 /-! ## non-vacuity: concrete inputs satisfying the hypotheses -/
 
 /-- a 3-row table: accepted, skipped (bad date), accepted — two transactions in order, `NoFatal` holds -/
